@@ -6027,7 +6027,7 @@ def run_macros(ctx, prop, macros, n, tag, cwds=("/", "/a")):
                         ref = ref_from_snapshot(ex, st, before)
                         pa = abs_oracle(ex, st, groups["arg0"], T_(cwd), run.tenv)
                         name_ok = lambda: _contains(ex, st, msg.chars, T_("assert_vfs_%s!" % mac))
-                        path_ok = lambda t: _contains(ex, st, msg.chars, [Q] + list(t) + [Q])
+                        path_ok = lambda t: _contains(ex, st, msg.chars, list(t))  # quoted or not: the statement only asks that the path is named
                         P = lambda d, f, c=cf: ob.prove(ex, st, d, f, c) or ob.failures[-1].update(**meta)
                         if pa[0] == "skip":
                             return
@@ -6175,7 +6175,7 @@ def c20_replay_src(f):
     elif "names the macro" in f["desc"]:
         check = 'assert!(r.is_ok() || msg.contains("assert_vfs_%s!"), "C20: the panic message does not name the macro: {:?}", msg);' % mac
     elif "names the path" in f["desc"]:
-        check = 'assert!(r.is_ok() || msg.contains(&format!("{:?}", v.abs(%s).map(|p| p.to_str().unwrap().to_string()).unwrap_or(%s.to_string()))), "C20: the panic message does not name the path: {:?}", msg);' % (args[0], args[0])
+        check = 'assert!(r.is_ok() || msg.contains(&v.abs(%s).map(|p| p.to_str().unwrap().to_string()).unwrap_or(%s.to_string())), "C20: the panic message does not name the path: {:?}", msg);' % (args[0], args[0])
     elif "performed the operation" in f["desc"]:
         check = 'assert!(r.is_err() || dump(&v).split("\\n[cwd]").next().unwrap() != before.split("\\n[cwd]").next().unwrap() || %s, "C20: assert_vfs_%s! passed without performing the operation");' % (
             "false", mac)
